@@ -110,7 +110,8 @@ def run_case(case):
     outcomes = []
     P = Parameters()
     for k, v in given:
-        P[k] = v
+        # every other case hands the value over as a vText object (docs/usage does): same wire form as the plain string
+        P[k] = vText(v) if (len(ps) + len(str(s))) % 2 else v
     intended_params = {k: v.replace('"', "'") for k, v in given}
     value = make_value(wrap, s)
     val_text = value.to_ical()
